@@ -164,7 +164,7 @@ def snapshot(f):
     if f is None:
         return None
     def cont(v):
-        return (type(v).__name__, np.array(v, dtype=float).tolist())
+        return (type(v).__name__, [float(t).hex() for t in np.array(v, dtype=float).ravel().tolist()])
     nm = f.NMONTHS
     nm = None if (isinstance(nm, float) and math.isnan(nm)) else int(nm)
     return (cont(f.kcals), cont(f.fat), cont(f.protein), f.kcals_units, f.fat_units, f.protein_units,
